@@ -166,6 +166,28 @@ let cmd_of_jv v =
     c_events = List.map ev_of_jv (list_arg (dget "events" v)) }
 let jcodes l = jlist (fun ((s, i), j) -> JList [JStr s; jnat i; jnat j]) l
 
+(* decimal <-> extracted Z (arbitrary precision), for the fixed-point rendering model *)
+let z_of_int k = let rec go k = if k = 0 then Z0 else Z.add (Z.mul (go (k / 10)) (Zpos (XO (XI (XO XH))))) (
+      match k mod 10 with 0 -> Z0 | d -> let rec p d = if d = 1 then XH else Pos.succ (p (d - 1)) in Zpos (p d)) in go k
+let z_of_string (s : string) : z =
+  let neg = String.length s > 0 && s.[0] = '-' in
+  let s = if neg then String.sub s 1 (String.length s - 1) else s in
+  let ten = z_of_int 10 in
+  let v = ref Z0 in
+  String.iter (fun c -> v := Z.add (Z.mul !v ten) (z_of_int (Char.code c - 48))) s;
+  if neg then Z.opp !v else !v
+let string_of_z (x : z) : string =
+  let ten = z_of_int 10 in
+  let neg = (match x with Zneg _ -> true | _ -> false) in
+  let x = Z.abs x in
+  let rec go x acc = match x with
+    | Z0 -> acc
+    | _ -> let (q, r) = Z.div_eucl x ten in
+           let d = (let rec toi z k = if z = Z0 then k else toi (Z.sub z (z_of_int 1)) (k + 1) in toi r 0) in
+           go q (String.make 1 (Char.chr (48 + d)) ^ acc) in
+  let s = go x "" in
+  (if neg then "-" else "") ^ (if s = "" then "0" else s)
+
 let dispatch (op : string) (args : jv list) : jv =
   match op, args with
   | "size_at", [d; JList ts] ->
@@ -233,6 +255,15 @@ let dispatch (op : string) (args : jv list) : jv =
              jlist (jlist jnum) (norm_mig ops s);
              jlist (jlist jnum) p])
        | Err e, _ | _, Err e -> errv e)
+  | "fixed10", [JStr n; JStr d] -> JStr (string_of_z (fixed10 (z_of_string n) (z_of_string d)))
+  | "graphs_check", [g; h; JList pairs; JList times; JList bounds; rel; abst] ->
+      let g = graph_arg g and h = graph_arg h in
+      let pairs = List.map (function JList [a; b] -> (nat_arg a, nat_arg b) | _ -> failwith "pair") pairs in
+      let close a b = isclose ops a b (num_arg rel) (num_arg abst) in
+      let same a b = isclose ops a b (fl 1e-9) (fl 0.) in
+      JList [
+        jlist (fun t -> JList [t; jcodes (check_graphs_at ops close g h pairs (num_arg t))]) times;
+        jlist (fun b -> JList [b; jcodes (check_gmoves_at ops close same g h pairs (num_arg b))]) bounds ]
   | "close", [a; b; r; t] ->
       jbool (close_graph ops (num_arg r) (num_arg t) (graph_arg a) (graph_arg b))
   | _ -> failwith ("unknown op " ^ op)
